@@ -159,7 +159,9 @@ Proof.
   intros H1 Hm Hx Hc Hn H. unfold checked_bundle_pipeline. rewrite H1. cbn [bind].
   assert (exists e, bundle_conntypes d1 = Error e) as [e ->]; [|cbn [bind]; eauto].
   unfold bundle_conntypes. apply (all_ok_err _ _ m Hm). unfold bct_module. apply (all_ok_err _ _ x Hx). unfold bct_inst.
-  destruct (bi_n x <=? 0) eqn:E; [|lia]. apply (all_ok_err _ _ c Hc). rewrite (bct_mismatch d1 m x c H). eauto.
+  destruct (bi_n x <=? 0) eqn:E; [|lia].
+  assert (exists e, all_ok (bct_conn d1 m x) (bi_conns x) = Error e) as [e ->]; [|cbn [bind]; eauto].
+  apply (all_ok_err _ _ c Hc). rewrite (bct_mismatch d1 m x c H). eauto.
 Qed.
 
 (* ------------------------------------------------------------------------------------------ InstBundleElabPass *)
